@@ -363,13 +363,19 @@ def run_round(c):
     E = env()
     mod = E["fpe_mod"]
     hm = []
-    real = mod.hmac
+    import hmac as _hmac_module
+    # the recorder sits on whatever module-level name(s) the cipher's module binds to the hmac module; a module that reaches
+    # HMAC another way (from hmac import HMAC, hashlib directly) is simply not recorded: Layer B then reports drift
+    names = [n for n, v in vars(mod).items() if v is _hmac_module]
     fpe = E["BitwiseFFX"]()
-    mod.hmac = HmacProxy(real, hm)
+    proxy = HmacProxy(_hmac_module, hm)
+    for n in names:
+        setattr(mod, n, proxy)
     try:
         o, v = outcome(lambda: bits_of(fpe.round(bytes(c["key"]), c["i"], mk_bits(c["s"]), c["w"])))
     finally:
-        mod.hmac = real
+        for n in names:
+            setattr(mod, n, _hmac_module)
     return {"k": "round", "i": c["i"], "s": c["s"], "w": c["w"], "le": sys.byteorder == "little", "hm": hm,
             "out": o, "o": v if o == "ok" else [], "ds": small_int(fpe.digest_size)}
 
